@@ -5,6 +5,7 @@
   selftest.py mutants [Cxx ...] [--tier quick|thorough]
                                       apply each mutants/<Cxx>/*.patch (and seeded/<id>/patch.diff) to a scratch copy of /repo's
                                       sources, run the property's check with VERIF_REPO pointing there, expect exit 1
+  selftest.py valgrind [N]            every scenario, both builds, N (300) plans each on the unsanitised build under valgrind memcheck
   selftest.py benign                  apply mutants/benign/*.patch, every listed check must stay at exit 0
 """
 import sys, os, subprocess, shutil, glob, json, hashlib, tempfile, time
@@ -96,6 +97,29 @@ def determinism(args):
     shutil.rmtree(out, ignore_errors=True)
     return 1 if bad else 0
 
+def valgrind(args):
+    """every scenario, both builds, N plans each on the unsanitised build under memcheck: neither harness nor stack may use an uninitialised value"""
+    runs = args[0] if args else "300"
+    vg = "OPT=-O1 -gdwarf-4 -DCOSIM_VALGRIND"
+    subprocess.check_call(["make", "-C", os.path.join(V, "sim"), "KEY=default-vg", "SAN=", vg, "-j16"], stdout=subprocess.DEVNULL)
+    out = os.path.join(V, "out", "vgself"); shutil.rmtree(out, ignore_errors=True); os.makedirs(out)
+    env = dict(os.environ, COSIM_VGLOG=os.path.join(out, "log"))
+    procs = []
+    for pid in sorted(PROPS):
+        for b in PROPS[pid].get("builds", ["A", "B"]):
+            cmd = ["valgrind", "-q", "--trace-children=yes", "--error-exitcode=0", "--log-file=" + os.path.join(out, "log") + ".%p",
+                   os.path.join(V, "build", "default-vg", "cosim_" + b), "run", PROPS[pid]["scenario"], "--seed", "7", "--runs", runs, "--jobs", "1", "--outdir", os.path.join(out, pid + b)]
+            procs.append((pid, b, subprocess.Popen(cmd, env=env, stdout=subprocess.PIPE, stderr=subprocess.PIPE, text=True)))
+            while sum(1 for _, _, p in procs if p.poll() is None) >= 14: time.sleep(0.2)
+    bad = 0
+    for pid, b, p in procs:
+        so, se = p.communicate()
+        ok = p.returncode == 0
+        print("%s build %s: %s plans under memcheck: %s" % (pid, b, runs, "clean" if ok else "REPORTS (exit %d)" % p.returncode))
+        if not ok: bad += 1; print(so[-1500:])
+    shutil.rmtree(out, ignore_errors=True)
+    return 1 if bad else 0
+
 if __name__ == "__main__":
     if len(sys.argv) < 2: print(__doc__); sys.exit(2)
-    sys.exit({"mutants": mutants, "benign": benign, "determinism": determinism}[sys.argv[1]](sys.argv[2:]))
+    sys.exit({"mutants": mutants, "benign": benign, "determinism": determinism, "valgrind": valgrind}[sys.argv[1]](sys.argv[2:]))
